@@ -44,6 +44,7 @@ inductive Dep where
   | pair      -- the streams of sender and recipient
   | all       -- every party's stream
   | among (xs : List Nat)  -- the streams of the parties `xs` (the contributing parties)
+  | ownMaybe (xs : List Nat)  -- the sender's stream, and possibly (depending on the recipient's MSP row) those of `xs`
   deriving DecidableEq, Repr
 
 /-- does a value with dependency `d`, owned/sent by `s` (to `t`), change when only `c`'s stream does? -/
@@ -55,6 +56,7 @@ def Dep.changes (d : Dep) (s t c : Nat) : Bool :=
   | .pair => s == c || t == c
   | .all => true
   | .among xs => xs.contains c
+  | .ownMaybe xs => s == c || xs.contains c
 
 /-- does the sender's own stream enter the value? -/
 def Dep.usesOwn : Dep → Bool
@@ -137,10 +139,12 @@ def Slot.expect (s : Slot) (c : Nat) : Exp :=
   else if s.first then
     (match s.dep with
      | .ownSched => .free
+     | .ownMaybe xs => if xs.contains c then .free else .mustSame
      | d => if d.changes s.from_ s.to c then .change else .mustSame)
   else
     (match s.dep with
      | .ownSched => .free
+     | .ownMaybe xs => if xs.contains c then .free else .same
      | d => if d.changes s.from_ s.to c then .change else .same)
 
 /-- a joint output: name, owner (0 = nobody in particular), dependency, and whether the property
@@ -300,13 +304,18 @@ def hjky (ids : List Nat) : Spec where
 
 /-- Redistribution (pkg/mpc/redistribute): r1 = HJKY zero sharing among the previous holders;
     r2 = every previous holder re-shares (its additive share + zero share) under the next
-    structure: broadcast vector + unicast sub-shares to the next holders.  The key does not change. -/
-def redistribute (prev next : List Nat) : Spec where
+    structure: broadcast vector + unicast sub-shares to the next holders.  The key does not change.
+    `secretInEveryRow`: every row of the next MSP involves the secret column (threshold structures:
+    Vandermonde rows); otherwise (unanimity, CNF, formulas, hierarchies: unit-vector-like rows) a
+    sub-share may be a fresh coefficient alone, independent of the re-shared value and hence of the
+    other previous holders' streams. -/
+def redistribute (prev next : List Nat) (secretInEveryRow : Bool := true) : Spec where
   rounds :=
     let newcomers := next.filter (!prev.contains ·)
     [ { round := 1, senders := .only prev, rcpts := .only prev, bc := some .own, uc := some .own },
       { round := 1, senders := .only newcomers, bc := some .none },   -- newcomers contribute nothing
-      { round := 2, senders := .only prev, rcpts := .only next, bc := some (.among prev), uc := some (.among prev) },
+      { round := 2, senders := .only prev, rcpts := .only next, bc := some (.among prev),
+        uc := some (if secretInEveryRow then .among prev else .ownMaybe prev) },
       { round := 2, senders := .only newcomers, bc := some .none } ]
   joint := [{ name := "pk", dep := .none, random := false }] ++
     next.map (fun i => { name := s!"share.{i}", dep := .among prev })
@@ -462,7 +471,7 @@ def lookup (name cfg : String) (ids : List Nat) : Option Spec :=
   | "canetti" => some (shared (canetti ids) 1 ["/Share/value/#/fieldBytes"])
   | "hjky" => some (shared (hjky ids) 1 ["/zeroShare/value/#/fieldBytes"])
   | "redistribute" =>
-    some (shared (redistribute (specIds (parts.getD 1 "")) (specIds (parts.getD 2 ""))) 2
+    some (shared (redistribute (specIds (parts.getD 1 "")) (specIds (parts.getD 2 "")) ((parts.getD 2 "").startsWith "th:")) 2
       ["/NextShareContribution/value/#/fieldBytes"])
   | "lindell22-vanilla" => some (lindell22 ids false)
   | "lindell22-bip340" => some (lindell22 ids true)
@@ -480,7 +489,7 @@ def lookup (name cfg : String) (ids : List Nat) : Option Spec :=
 
 /-- every table known to the model, on a sample party set (used by the structural theorems) -/
 def allSpecs (ids : List Nat) : List Spec :=
-  [session ids, dealer ids, gennaro ids, canetti ids, hjky ids, redistribute ids ids,
+  [session ids, dealer ids, gennaro ids, canetti ids, hjky ids, redistribute ids ids, redistribute ids ids false,
    lindell22 ids false, lindell22 ids true, dkls23Bbot ids, dkls23Softspoken ids, boldyreva,
    lindell17 (ids.headD 1) (ids.getLastD 2)]
 
